@@ -49,6 +49,8 @@ TraceQuiesce ==
         k <= Len(xs[x].callobj) /\ Line.ctxs[x][k] = Canceled(xs[x], xs[x].callobj[k])
   \* C04: breaker state and, when half-open, the trial permits left (probed through TryAcquirePermit) agree with the model
   /\ \A id \in DOMAIN Line.cb : Line.cb[id].state = pol[id].st /\ (pol[id].st = "halfopen" => Line.cb[id].permits = pol[id].permitted)
+  \* C11: what the cache holds afterwards
+  /\ ("caches" \in DOMAIN Line => \A id \in DOMAIN Line.caches : SetOf(Line.caches[id]) = pol[id])
   \* C16: OnRateLimitExceeded only for real refusals (the model counts the spurious ones of StaleLastErrorOnCancelledWait)
   /\ (IF \A x \in 1..Len(xs) : xs[x].spurious = 0 THEN TRUE ELSE PrintT(<<"PROPVIOL", "C16", l>>))
   /\ (IF C04_OK THEN TRUE ELSE PrintT(<<"PROPVIOL", "C04", l>>))
